@@ -208,6 +208,13 @@ let handle line =
       bump ("BBUF:" ^ label ^ ":" ^ (if res = "-" then "empty" else if is_pref "err" res || is_pref "panic" res then "fail" else "pairs"));
       Hashtbl.replace distinct ("U" ^ line) ();
       if exp <> res then propfail line "buffer-tier<>own-flushed-locks" exp
+  | ["OPTS"; hid; mask; _; "=>"; res] ->
+      incr pn;
+      let m = int_of_string mask in
+      List.iter (fun (b, nm) -> if m land b <> 0 then bump ("OPT:" ^ nm))
+        [(1, "runtime-stats"); (2, "read-timeout"); (4, "interceptor"); (8, "resource-group"); (16, "stale-read"); (32, "replica-read"); (64, "vars")];
+      if m = 0 then bump "OPT:none";
+      if res <> "ok" then propfail line "option-plumbing" "ok"
   | "MODE" :: _ :: a :: c :: n :: _ ->
       bump ("MODE:" ^ a ^ ":" ^ c ^ (if n = "asyncRPCs=0" then ":no-async-rpc" else ":async-rpcs"))
   | [] | [""] -> ()
